@@ -4,6 +4,7 @@ round-trip) and C16 (data items mutually consistent and faithful).
 Each script = one server; generated messages (gen_msg) and fixture messages
 are delivered as files and by APPEND and fetched with every data item form.
 Monitor hits are tagged with the properties they refute."""
+import os
 import email
 import email.header
 import email.policy
@@ -437,6 +438,72 @@ async def several_messages_in_one_fetch(cx, rig, s, rnd):
                         break
 
 
+async def after_folder_changes(cx, rig, s, rnd):
+    """The equations still hold once the folder has changed under the messages:
+    lower messages expunged and the folder packed by the periodic check (message
+    files renumbered), the last message expunged and another one filed under its
+    number.  Per surviving UID: RFC822.SIZE and BODY[] are what they were, and
+    RFC822.SIZE = |BODY[]| for every message that is there now."""
+    from .hist_base import set_pack_limit
+
+    if s.wire_error or s.writer.closed:
+        s = rig.session("M")
+    r = await s.cmd("SELECT filed")
+    if not r.ok:
+        return
+
+    async def table():
+        rr = await s.cmd("FETCH 1:* (UID RFC822.SIZE BODY.PEEK[])")
+        out = {}
+        if rr.ok:
+            for _n, d in rr.fetches():
+                if "UID" in d and d.get("BODY[]") is not None:
+                    out[d["UID"]] = (d.get("RFC822.SIZE"), bytes(d["BODY[]"]))
+        return out
+
+    def judge(before, after, where):
+        for u, (sz, body) in after.items():
+            cx.inc("eq_size_after_change")
+            if sz != len(body):
+                cx.viol(["C16", "C03"], "size-differs-from-body-after-folder-change", f"{where}: uid {u}: RFC822.SIZE {sz}, BODY[] has {len(body)} octets")
+                return False
+            if u in before and before[u] != (sz, body):
+                cx.viol(["C16", "C03"], "message-data-changed-after-folder-change", f"{where}: uid {u}: RFC822.SIZE {before[u][0]} -> {sz}, BODY[] {'same' if before[u][1] == body else 'differs'}")
+                return False
+        return True
+
+    t0 = await table()
+    if len(t0) < 5:
+        return
+    uids = sorted(t0)
+    set_pack_limit(3, rig.server)
+    try:
+        # (a) the last message goes, another is filed under its number
+        await s.cmd(f"UID STORE {uids[-1]} +FLAGS.SILENT (\\Deleted)")
+        await s.cmd("EXPUNGE")
+        rig.deliver_raw("filed", b"From: after@change.example\r\nSubject: filed under a freed number\r\n\r\n" + b"another body entirely\r\n" * rnd.randint(1, 9))
+        await rig.advance(7)
+        await s.cmd("NOOP")
+        t1 = await table()
+        cx.inc("folder_change_rounds")
+        if not judge(t0, t1, "after expunge of the last message and a delivery under its number"):
+            return
+        # (b) lower messages go, the periodic check packs the folder
+        low = uids[: max(2, len(uids) // 3)]
+        await s.cmd(f"UID STORE {','.join(map(str, low))} +FLAGS.SILENT (\\Deleted)")
+        await s.cmd("EXPUNGE")
+        await rig.advance(12)
+        await s.cmd("NOOP")
+        t2 = await table()
+        cx.inc("folder_change_rounds")
+        keys = sorted(int(x) for x in os.listdir(rig.maildir / "filed") if x.isdigit())
+        if keys and keys == list(range(1, len(keys) + 1)):
+            cx.inc("folder_packed")
+        judge(t1, t2, "after expunge of the lower messages and a pack")
+    finally:
+        set_pack_limit(100, rig.server)
+
+
 async def script(loop, ctx):
     k = ctx["script"]
     rnd = rng(ctx["seed"], "msg", k)
@@ -507,6 +574,7 @@ async def script(loop, ctx):
                     cx.viol(["C06", "C16"], "append-unhandled-exception", f"{tagbase}: {ra.brief()}", shape=m["shape"], klass=m["klass"])
             infos.append({"shape": m["shape"], "klass": m["klass"], "hostile": m.get("hostile"), "id": m.get("cid") or m.get("name")})
         await several_messages_in_one_fetch(cx, rig, s, rnd)
+        await after_folder_changes(cx, rig, s, rnd)
         if k % 4 == 0:
             await names_and_errors(cx, rig, rnd)
         for sess in rig.sessions:
